@@ -16,6 +16,7 @@ type Env struct {
 	old   *State // state for old(...)
 	bound map[string]TV
 	iter  string // term for #k, "" if none
+	loop  *loopInfo // the loop whose invariant / unfold is being translated (nil elsewhere): visited(k)
 	skolem map[string]*skolemInst // per-call-site function symbols of the contract being applied
 }
 
@@ -202,7 +203,18 @@ func (env *Env) tr0(e Expr) TV {
 		case "<", "<=", ">", ">=":
 			l, r := env.tr(x.L), env.tr(x.R)
 			if l.S == "Str" {
-				env.fail("string ordering not supported in contracts")
+				// the same uninterpreted strict order the code's own comparisons are translated to
+				f := eng.ufun("str.lt", []string{"Str", "Str"}, "Bool")
+				switch x.Op {
+				case "<":
+					return TV{T: fmt.Sprintf("(%s %s %s)", f, l.T, r.T), S: "Bool"}
+				case ">":
+					return TV{T: fmt.Sprintf("(%s %s %s)", f, r.T, l.T), S: "Bool"}
+				case "<=":
+					return TV{T: fmt.Sprintf("(not (%s %s %s))", f, r.T, l.T), S: "Bool"}
+				default:
+					return TV{T: fmt.Sprintf("(not (%s %s %s))", f, l.T, r.T), S: "Bool"}
+				}
 			}
 			return TV{T: fmt.Sprintf("(%s %s %s)", x.Op, l.T, r.T), S: "Bool"}
 		case "+", "-", "*":
@@ -545,6 +557,33 @@ func (env *Env) trCall(x ECall) TV {
 		tv := fc.v(mi.X)
 		tv.G = mi.X.Type()
 		return tv
+	case "visited":
+		// visited(k): in an invariant of a range-over-map loop, key k has been handed to the body already
+		// (the iterator's visited set: every key is visited at most once, and only keys of the map are)
+		if env.loop == nil || len(args) != 1 {
+			env.fail("visited(k) is only meaningful in an invariant of a range-over-map loop")
+		}
+		var nx *ssa.Next
+		for blk := range env.loop.body {
+			for _, in := range blk.Instrs {
+				if n, ok := in.(*ssa.Next); ok && !n.IsString {
+					nx = n
+				}
+			}
+		}
+		if nx == nil {
+			env.fail("visited(k): the loop does not range over a map")
+		}
+		rng := nx.Iter.(*ssa.Range)
+		mt := rng.X.Type().Underlying().(*types.Map)
+		ks := eng.sorts.sortOf(mt.Key())
+		vis := eng.regHeap("ITV."+ks, "(Array Int (Array "+ks+" Bool))")
+		it, ok := fc.val[nx.Iter]
+		if !ok {
+			env.fail("visited(k): the iterator is not defined here")
+		}
+		k := env.tr(args[0])
+		return TV{T: fmt.Sprintf("(select (select %s %s) %s)", env.st.get(vis), it.T, k.T), S: "Bool"}
 	case "closureResult":
 		// closureResult(f, a1, ...): the value the function literal bound to parameter f returns on the
 		// arguments, according to its own contract (which must have an ensures `res == E`)
